@@ -277,6 +277,12 @@ func apiReachable(r *Run) map[*ssa.Function]bool {
 		for _, n := range []string{"Load", "Store", "LoadOrStore", "LoadAndStore", "LoadOrCompute", "Compute", "LoadAndDelete", "Delete", "Range", "Clear", "Size"} {
 			visit(mm.Methods[n])
 		}
+		// every other exported method of the map type is API too (a method added later must not escape the rules)
+		for _, f := range r.P.Funcs {
+			if f.Pkg == r.P.Xsync && f.Parent() == nil && f.Signature.Recv() != nil && f.Object() != nil && f.Object().Exported() && core.NamedOf(f.Signature.Recv().Type()) == mm.Name {
+				visit(f)
+			}
+		}
 	}
 	return reach
 }
